@@ -964,4 +964,109 @@ theorem ended_task_is_silent (P : Progs) (cs : List Choice) (s s' : MSys) (h : m
         rw [hl, List.filter_append]
         simp [hne]
 
+/-! ### the event trace is the wire: transport operations in the log and `op` events correspond one to one, in order -/
+
+def wireOfLog : Tid × Nat × Act → Option (Tid × OpKind)
+  | (t, _, .io o) => (wireKind o).map fun k => (t, k)
+  | _ => none
+
+def wireOfEvent : Event → Option (Tid × OpKind)
+  | .op t k => some (t, k)
+  | _ => none
+
+theorem settle_events_no_op (p : Prog) (t : Tid) (ts : TState) : (settle p t ts).2.filterMap wireOfEvent = [] := by
+  unfold settle
+  split
+  · unfold nextRound; split <;> rfl
+  · rfl
+
+theorem nextRound_events_no_op (p : Prog) (t : Tid) (ts : TState) : (nextRound p t ts).2.filterMap wireOfEvent = [] := by
+  unfold nextRound; split <;> rfl
+
+theorem exec_wire (P : Progs) (s : MSys) (t : Tid) (ts : TState) (a : Act) (s' : MSys) (evs : List Event)
+    (h : exec P s t ts a = some (s', evs)) : evs.filterMap wireOfEvent = (wireOfLog (t, ts.round, a)).toList := by
+  cases a with
+  | acquire => simp only [exec] at h; injection h with h; injection h with h1 h2; subst h2; rfl
+  | release =>
+    simp only [exec] at h
+    split at h
+    · injection h with h; injection h with h1 h2; subst h2; rfl
+    · injection h with h; injection h with h1 h2; subst h2
+      simp only [List.filterMap_cons, wireOfEvent, settle_events_no_op]; rfl
+  | io o =>
+    cases o with
+    | rd k tmo d =>
+      simp only [exec] at h
+      split at h
+      · cases h
+      · injection h with h; injection h with h1 h2; subst h2
+        rw [List.filterMap_append, settle_events_no_op, List.append_nil]; simp [wireKind, wireOfLog, wireOfEvent]
+    | wr a r d =>
+      simp only [exec] at h; injection h with h; injection h with h1 h2; subst h2
+      rw [List.filterMap_append, settle_events_no_op, List.append_nil]; simp [wireKind, wireOfLog, wireOfEvent]
+    | sl d =>
+      simp only [exec] at h; injection h with h; injection h with h1 h2; subst h2
+      rw [List.filterMap_append, settle_events_no_op, List.append_nil]; simp [wireKind, wireOfLog]
+    | rc r =>
+      simp only [exec] at h; injection h with h; injection h with h1 h2; subst h2
+      rw [List.filterMap_append, settle_events_no_op, List.append_nil]; simp [wireKind, wireOfLog, wireOfEvent]
+  | spawn w =>
+    simp only [exec] at h
+    split at h
+    · cases h
+    · injection h with h; injection h with h1 h2; subst h2; exact settle_events_no_op _ _ _
+  | stop w =>
+    simp only [exec] at h
+    split at h
+    · cases h
+    · injection h with h; injection h with h1 h2; subst h2; exact settle_events_no_op _ _ _
+  | join w =>
+    simp only [exec] at h
+    split at h
+    · injection h with h; injection h with h1 h2; subst h2; exact settle_events_no_op _ _ _
+    · cases h
+
+theorem step_wire (P : Progs) (s s' : MSys) (c : Choice) (h : mstep P s c = some s')
+    (hi : s.log.filterMap wireOfLog = s.events.filterMap wireOfEvent) :
+    s'.log.filterMap wireOfLog = s'.events.filterMap wireOfEvent := by
+  obtain ⟨s1, evs, hm, rfl⟩ := mstep_eq P s s' c h
+  show s1.log.filterMap wireOfLog = (s.events ++ evs).filterMap wireOfEvent
+  rw [List.filterMap_append, ← hi]
+  cases c with
+  | deliver b => simp only [mstepE] at hm; injection hm with hm; injection hm with h1 h2; subst h1; subst h2; simp
+  | cancel t =>
+    simp only [mstepE] at hm
+    split at hm
+    · cases hm
+    all_goals (injection hm with hm; injection hm with h1 h2; subst h1; subst h2; simp [MSys.setTask, wireOfEvent])
+  | run t =>
+    simp only [mstepE] at hm
+    split at hm
+    · cases hm
+    · split at hm
+      · cases hm
+      · cases hm
+      · split at hm
+        · split at hm
+          · injection hm with hm; injection hm with h1 h2; subst h1; subst h2; simp [MSys.setTask, wireOfEvent]
+          · cases hm
+        · cases hm
+      all_goals
+        split at hm
+        · injection hm with hm; injection hm with h1 h2; subst h1; subst h2
+          rw [nextRound_events_no_op]; simp [MSys.setTask]
+        · rw [exec_log P s t _ _ s1 evs hm, exec_wire P s t _ _ s1 evs hm, List.filterMap_append]
+          cases hwl : wireOfLog (t, (s.tasks t).round, _) <;> simp [hwl]
+
+theorem run_wire (P : Progs) (cs : List Choice) (s s' : MSys) (h : mrun P s cs = some s')
+    (hi : s.log.filterMap wireOfLog = s.events.filterMap wireOfEvent) :
+    s'.log.filterMap wireOfLog = s'.events.filterMap wireOfEvent := by
+  induction cs generalizing s with
+  | nil => simp only [mrun] at h; injection h with h; subst h; exact hi
+  | cons c cs ih =>
+    simp only [mrun] at h
+    cases hm : mstep P s c with
+    | none => rw [hm] at h; cases h
+    | some s1 => rw [hm] at h; exact ih s1 h (step_wire P s s1 c hm hi)
+
 end Gallia.ClientMulti
